@@ -100,6 +100,17 @@ func buildIntrinsics() map[string]Intrinsic {
 			}
 			return r
 		}
+		t[p+"vChoose"] = func(m *Machine, fr *Frame, fn *ssa.Function, a []Value) Value {
+			n := int(m.concreteInt(fr, a[1].(*Term), "vChoose n"))
+			v := m.newInput(m.str(a[0]), 64)
+			if n <= 0 {
+				panic(pathAbort{"assume", "vChoose over empty range"})
+			}
+			k := m.Choose(fr, n, "vChoose:"+m.str(a[0]))
+			c := m.tf.Const(64, uint64(k))
+			m.addPC(m.tf.Eq(v, c))
+			return c
+		}
 		t[p+"vParam"] = func(m *Machine, fr *Frame, fn *ssa.Function, a []Value) Value {
 			name := m.str(a[0])
 			if v, ok := m.cfg.Params[name]; ok {
